@@ -20,10 +20,10 @@ type SubSpec struct {
 
 // subListener is one listener whose received stream is compared.
 type subListener struct {
-	spec SubSpec
-	rec  *Recorder
-	cb   *listener.Callback
-	name string
+	spec        SubSpec
+	rec         *Recorder
+	cb          *listener.Callback
+	name        string
 	seen, taken int // events of the full stream since the listener was added / selected of those
 }
 
